@@ -359,8 +359,21 @@ def oracle(ctx, hints=()):
             nontriv += 5 if any(h) and G['nsymop'] > 1 else 0
         if len(viol) > 20:
             break
+    # several hundred atoms in one list (block seams at 256, 512, ...): the direct sum for two small groups
+    nlong = 0
+    for e, nat in zip([e for e in todo if c07.group(e['name'])['nsymop'] <= 8][:2], (rng.randint(515, 780), rng.randint(258, 400))):
+        if len(viol) > 20:
+            break
+        G = c07.group(e['name'])
+        cell = gens.cell(rng)[0]
+        atoms = [direct_atom(rng, G, cell, ('Uani', 'Uani', 'Uiso')) for _ in range(nat)]
+        disper = c07.rand_disper(rng, atoms, 'full')
+        for h in [c07.rand_hkl(rng, 6, allow_zero=False) for _ in range(2)]:
+            viol += evaluate('direct', {'sgname': e['name'], 'cell': cell, 'hkl': h, 'atoms': atoms, 'disper': disper}, stats)
+            ev += 1
+        nlong += 1
     return {'evaluations': ev, 'distinct_nontrivial': nontriv, 'violations': viol, 'samples': [sample], 'exhaustive': False,
-            'stats': {'settings': len(todo), 'per_crystal_system': per_cs, 'checks': stats['n'], 'max_err_over_tol': stats['max_err_over_tol'],
+            'stats': {'settings': len(todo), 'per_crystal_system': per_cs, 'checks': stats['n'], 'long_atom_lists': nlong, 'max_err_over_tol': stats['max_err_over_tol'],
                       'position_kinds': pos_kinds, 'atoms_on_special_positions': special_atoms,
                       'uani_atoms_on_special_positions': uani_special, 'atom_sets_with_a_shared_site': shared_sites}}
 
